@@ -36,7 +36,9 @@ def main():
                 print(name, "PATCH DOES NOT APPLY at", head, o[-300:]); continue
             shutil.rmtree(EV, ignore_errors=True); os.makedirs(EV)
             env = dict(os.environ, VERIF_REPO=WT, VERIF_EVIDENCE=EV, VERIF_SEED="1")
-            rc, out = sh("bin/check %s quick" % pid, V, env)
+            # a change that is caught by ANOTHER property's check (the seeded behaviour falls under both): detect_with names it
+            chk = open(os.path.join(d, "detect_with")).read().strip() if os.path.exists(os.path.join(d, "detect_with")) else pid
+            rc, out = sh("bin/check %s quick" % chk, V, env)
             sh("git checkout -q -- . && git clean -fdq", WT)
             viol = [l for l in out.splitlines() if l.startswith("VIOLATION")]
             if DETECT_ONLY:
@@ -56,7 +58,7 @@ def main():
                  "ported": pf.endswith("ported.diff") and "the agent's patch (patch_original.diff) no longer applied after a repair of /repo; patch.diff is the same change on the repaired code",
                  "confirmed": {"what_i_ran": "tools/confirm_mut.py in a scratch worktree: demo passes on the clean tree, patch applies and builds, demo fails with the patch, full unedited suite (go test -vet=off -count=1 ./...) passes with the patch",
                                "at_repo_commit": conf.get("repo_head"), "result": {k: v for k, v in conf.items() if isinstance(v, bool)}},
-                 "detection": {"at_repo_commit": head, "command": "bin/check %s quick (VERIF_SEED=1) against a scratch worktree with patch.diff applied" % pid,
+                 "detection": {"at_repo_commit": head, "command": "bin/check %s quick (VERIF_SEED=1) against a scratch worktree with patch.diff applied" % chk,
                                "exit": rc, "violations": len(viol),
                                "first": re.sub(r"replay=\S+\s*", "", viol[0])[:300] if viol else None}}
             json.dump(m, open(os.path.join(dst, "meta.json"), "w"), indent=1)
